@@ -131,7 +131,9 @@ _MORE_BUILTINS: Dict[str, Any] = {"format": format, "divmod": divmod, "ord": ord
 
 class Folder2(Folder):
     def child(self, extra: Dict[str, Any]) -> "Folder2":
-        return Folder2(self.repo, self.module, {**self.local, **extra}, self.cls)
+        f = Folder2(self.repo, self.module, {**self.local, **extra}, self.cls, self.world)
+        f._busy = self._busy
+        return f
 
     def _kw(self, n: ast.Call) -> Dict[str, Any]:
         if any(k.arg is None for k in n.keywords):
@@ -463,8 +465,11 @@ class BlockEval2(BlockEval):
         import copy
 
         e2 = ast.fix_missing_locations(_Rewrite().visit(copy.deepcopy(e)))
+        # interpreted functions and namespace stand-ins are global names: they stay visible while a module-level constant that the
+        # fragment reads is folded (a table of checks built by calling module functions, `_CHECKS = (("id", _above(99999)), ...)`)
+        world = {k: v for k, v in self.env.items() if k not in BASE and (callable(v) or type(v).__name__ in ("Obj", "_NS"))}
         try:
-            return Folder2(self.repo, self.module, self.env).fold(e2)
+            return Folder2(self.repo, self.module, self.env, world=world).fold(e2)
         except NotConst as ex:
             raise Unknown(f"`{ast.unparse(e)[:60]}`: {ex}")
 
